@@ -182,3 +182,21 @@ pub fn wfail_schema_flush() {
     assert!(bad.flushes == 1, "[C13/schema.flushed] serialize_with_schema flushes the writer");
     core::mem::forget(rb);
 }
+
+/// cheap version for the quick tier: one two-byte write, two planned calls
+// @h wshort_u16 props=C13 tier=quick kind=complete vars="v:u16, plan[2] symbolic (0 = Interrupted, k = accept at most k bytes), at most one interruption" fns="ser/write.rs:impl WriteNoStd for W: Write"
+#[kani::proof]
+#[kani::unwind(6)]
+pub fn wshort_u16() {
+    let v: u16 = kani::any();
+    let plan: [u8; 2] = kani::any();
+    kani::assume(plan[0] != 0 || plan[1] != 0);
+    let mut w = ShortWriter::<8, 2>::new(plan);
+    let rs = ser_root(&v, &mut w);
+    assert!(rs.is_ok(), "[C13/short.ok] short and interrupted writes are retried, not reported as failures");
+    assert!(w.len == 2, "[C13/short.len] a splitting writer receives exactly the fault-free byte count");
+    let b = v.to_le_bytes();
+    assert!(w.buf[0] == b[0] && w.buf[1] == b[1], "[C13/short.bytes] a splitting writer receives exactly the fault-free bytes");
+    core::mem::forget(rs);
+    kani::cover!(plan[0] == 0, "[cover] interruption on the first attempt reached");
+}
